@@ -196,6 +196,8 @@ def monitor_sub(case, obs, k, w):
             else:
                 ideal.forward(batch)
                 f = st["fw"][k]
+                if "length" not in f:
+                    continue        # no layer of this configuration is stored in this cache
                 if f.get("layerdiff"):
                     out.append(({"class": "layers-differ"}, "Get returned different histories for different layers at step %d" % si, {"step": si}))
                 if f["length"] != f["max"] - f["min"] + 1 or f["cached"] != f["length"] or not f["padok"]:
@@ -433,7 +435,11 @@ def gen_history(rng, cfg, klass, nops):
             fwd(rng.randint(1, B), only=[a])
             v = rng.choice([a, b])
             pv = sim.pos(v)
-            if len(pv) >= 2:
+            if n >= 2 and rng.random() < 0.6:
+                # a range that ends inside the shared prefix: the cells behind it are shared and cannot be shifted
+                b0 = rng.randint(0, n - 2)
+                rm(v, b0, rng.randint(b0 + 1, n - 1), raw=rng.random() < 0.3)
+            elif len(pv) >= 2:
                 x = rng.randint(0, len(pv) - 2)
                 rm(v, pv[x], pv[rng.randint(x, len(pv) - 2)] + 1, raw=rng.random() < 0.3)
     style = "wild" if (klass == "wild" and not cfg["window"]) else "append"
@@ -455,7 +461,11 @@ def gen_history(rng, cfg, klass, nops):
             ps = sim.pos(q)
             k = rng.random()
             raw = rng.random() < 0.25
-            if k < 0.35:
+            shared = sorted(x[0] for x in sim.ent if q in x[1] and len(x[1]) > 1 and x[0] > 0)
+            if shared and rng.random() < 0.4:
+                e0 = rng.choice(shared)
+                rm(q, rng.randint(max(0, e0 - 2), e0 - 1), e0, raw)
+            elif k < 0.35:
                 rm(q, rng.choice(ps + [ps[-1] + 1]), MAXI32, raw)
             elif k < 0.55:
                 rm(q, 0, rng.choice(ps) + 1, raw)
@@ -497,7 +507,7 @@ def gen_history(rng, cfg, klass, nops):
 
 
 SWA = ("swa", "swa-resume", "swa-copy", "swa-shift", "wrapper")
-KLASSES = ["mixed", "mixed", "defrag", "defrag", "defrag", "full", "copy", "remove", "wild", "swa", "swa", "swa-resume", "swa-copy", "swa-shift", "wrapper", "wrapper"]
+KLASSES = ["mixed", "mixed", "defrag", "defrag", "defrag", "full", "copy", "copy", "remove", "wild", "swa", "swa", "swa-resume", "swa-copy", "swa-shift", "wrapper", "wrapper"]
 
 
 def gen_case(rng, klass=None, nops=None):
@@ -682,7 +692,7 @@ def shrink(ctx, binp, case, sig):
     ops = vlib.ddmin(case["ops"], fails, max_tests=150)
     c = {"cfg": dict(case["cfg"]), "ops": ops, "klass": case.get("klass")}
     # simplify the configuration where the failure does not depend on it
-    for k, v in (("layers", 1), ("permv", False), ("maskf16", False), ("bpad", 1), ("cpad", 1), ("nodes", 8192)):
+    for k, v in (("layers", 2 if case["cfg"].get("kind") == "wrapper" else 1), ("permv", False), ("maskf16", False), ("bpad", 1), ("cpad", 1), ("nodes", 8192)):
         if c["cfg"].get(k) != v:
             c2 = {"cfg": dict(c["cfg"], **{k: v}), "ops": ops}
             o, _ = run_cases(ctx, binp, [c2])
